@@ -62,6 +62,9 @@ def cached(name: str, fn):
     tmp = f.with_suffix(f".tmp{os.getpid()}")
     tmp.write_text(json.dumps(val))
     tmp.replace(f)
+    for old in CACHE.glob(f"{name}-????????????????.json"):   # values computed from earlier versions of the spec
+        if old != f:
+            old.unlink(missing_ok=True)
     return val, False
 
 
